@@ -185,8 +185,10 @@ func c16SpecGen() *rapid.Generator[c16Spec] {
 		if s.Typ == CandidateTypeHost {
 			s.TCP = rapid.SampledFrom(c17TCP).Draw(t, "tcp")
 		} else {
-			switch rapid.IntRange(0, 4).Draw(t, "relForm") {
+			switch rapid.IntRange(0, 5).Draw(t, "relForm") {
 			case 0: // none / empty
+			case 5: // a related port without a related address
+				s.RelAddr, s.RelPort = "", rapid.IntRange(1, 65535).Draw(t, "rp")
 			case 1:
 				s.RelAddr, s.RelPort = "0.0.0.0", 0
 			case 2:
@@ -848,11 +850,7 @@ func TestVerif_C16_Attributes(t *testing.T) {
 			case "nomination":
 				var a NominationAttribute
 				err = a.GetFrom(c16Msg(rt, c16RawAttr{DefaultNominationAttribute, val}))
-				wantErr = n < 4
-				if n > 4 {
-					st.Label("nomination-longer-than-4-accepted-by-documented-rule")
-					wantErr = err != nil // only "< 4 rejected" is documented; longer is not judged
-				}
+				wantErr = n != 4 // the attribute is always encoded in 4 bytes; any other size is a wrong size
 				if err == nil && n >= 4 {
 					want := uint32(val[1])<<16 | uint32(val[2])<<8 | uint32(val[3])
 					if a.Value != want {
